@@ -265,7 +265,9 @@ func (c *Client) packet(ctx context.Context) (proto.ServerCode, error) {
 			zap.Stringer("packet", code),
 		)
 	}
-	if !code.IsAServerCode() {
+	if uint64(code) != n || !code.IsAServerCode() {
+		// ServerCode is a byte: a larger value must not be taken for the
+		// code it happens to share its low bits with.
 		return 0, errors.Errorf("bad server packet type %d", n)
 	}
 
